@@ -39,6 +39,14 @@
 
 #include <string.h>
 
+#ifdef CPPCMS_VERIF
+// Verification hook (guarded): lets a test harness widen scheduling windows between critical sections.
+extern "C" void cppcms_verif_yield(char const *site) __attribute__((weak));
+#define CPPCMS_VERIF_YIELD(site) do { if(cppcms_verif_yield) cppcms_verif_yield(site); } while(0)
+#else
+#define CPPCMS_VERIF_YIELD(site) do {} while(0)
+#endif
+
 namespace cppcms {
 namespace impl {
 
@@ -260,6 +268,7 @@ public:
 			return false;
 		}
 
+		CPPCMS_VERIF_YIELD("cache.fetch.before_lru");
 		{ // Update LRU
 			lock_guard lock(*lru_mutex);
 			lru.erase(p->second.lru);
@@ -267,6 +276,7 @@ public:
 			p->second.lru=lru.begin();
 		}
 
+		CPPCMS_VERIF_YIELD("cache.fetch.before_copy");
 		if(a)
 			*a=to_std(p->second.data);
 
@@ -379,6 +389,7 @@ public:
 			return;
 		}
 
+		CPPCMS_VERIF_YIELD("cache.store.before_lock");
 		wrlock_guard lock(*access_lock);
 		try {
 			pointer main;
